@@ -64,17 +64,13 @@ def guard(decl, fmt, cell):
     if is_empty:
         if cell != "":
             # blank-only cell of fixed-width data
-            if allowed is not None and not R.contains(allowed, 32):
-                return (UNJUDGED, "fixed blank-only cell while blank is not an allowed character")
+            # (a blank-only cell is the empty cell of fixed-width data whether or not blank is an allowed character)
             if lengths is not None and len(cell) > width(lengths):
                 return (UNJUDGED, "fixed blank-only cell longer than the field width")
         if decl["empty"]:
             return ("empty", EMPTY_VALUE.get(decl["type"], None))
         return (REJECT, "empty cell for a field that must not be empty")
-    if fixed and cell.strip() != cell.strip(" "):
-        return (UNJUDGED, "fixed cell with leading/trailing white space other than blanks")
-    if fixed and cell.strip() == "":
-        return (UNJUDGED, "fixed cell of white space other than blanks")
+    # (only blanks are padding: tabs, no-break spaces and the like are characters of the value)
     # allowed characters
     if allowed is not None:
         for position, ch in enumerate(cell):
